@@ -55,6 +55,33 @@ class Draws:
     def randint(self, a, b):
         return a
 
+    def Random(self, *a):
+        # a private generator object seeded by the code under test draws from the same script
+        return self
+
+
+_REAL = {}
+
+
+def set_source(gm, src):
+    """Make `src` the random source of the code under test: the module-level name `random` of pcfg_grammar (what today's code draws from) and the
+    functions of the real `random` module (what a function that was handed the module - a default argument, an attribute - draws from)."""
+    import random as real
+    if not _REAL:
+        _REAL.update({n: getattr(real, n) for n in ('random', 'choice', 'seed', 'randint')})
+        _REAL['gm'] = gm.random if not isinstance(gm.random, (Draws, MarkovRuns)) else real
+    gm.random = src
+    for n in ('random', 'choice', 'seed', 'randint'):
+        setattr(real, n, getattr(src, n))
+
+
+def restore_source(gm):
+    import random as real
+    for n in ('random', 'choice', 'seed', 'randint'):
+        if n in _REAL:
+            setattr(real, n, _REAL[n])
+    gm.random = real
+
 
 class MarkovRuns:
     """Random source for whole sessions: the session re-seeds before every walk, so seed() marks the start of a walk; the first draw of a walk picks
@@ -80,6 +107,11 @@ class MarkovRuns:
 
     def randint(self, a, b):
         return a
+
+    def Random(self, *a):
+        # a private generator object created (seeded) for a walk is the start of a walk, like seed()
+        self.seed(*a)
+        return self
 
 
 def rulesets(tier):
@@ -118,6 +150,13 @@ def rulesets(tier):
     for sb, sc in ((True, False), (True, True), (False, True)):
         types_l, base_l = R.ref_loaded(disk, sb, sc)
         out.append(('loaded from disk, skip_brute=%s all_lower=%s' % (sb, sc), types_l, base_l, (disk, sb, sc)))
+    # structures with lengths of two digits (A10, D12), loaded without flags and under --all_lower
+    from . import c14
+    long = dict(c14.TERMINALS_LONG)
+    long.update(grammar=[('A10', .5), ('A1D12', .3), ('D12', .2)], prince=D.PRINCE)
+    for sb, sc in ((False, False), (False, True)):
+        types_l, base_l = R.ref_loaded(long, sb, sc)
+        out.append(('two-digit lengths loaded from disk, all_lower=%s' % sc, types_l, base_l, (long, sb, sc)))
     out.append(('renormalised (skip_brute style)', {'D1': t['D1'], 'O1': t['O1']}, [(.3 / .7, ['D1']), (.25 / .7, ['O1']), (.15 / .7, ['D1', 'O1'])]))
     return out
 
@@ -197,7 +236,7 @@ def _walk_one(gm, entry, acc, second):
         # ---- Part A: every cell of the walk
         def explore(prefix, expect, meas):
             drv = Draws([v for v in prefix])
-            gm.random = drv
+            set_source(gm, drv)
             try:
                 item = g.random_walk()
             except NeedMore:
@@ -277,7 +316,7 @@ def _walk_one(gm, entry, acc, second):
                 if reps_ == ['M']:
                     lines = []
                     g.print_guess = lines.append
-                    gm.random = Draws([])
+                    set_source(gm, Draws([]))
                     n = g.create_guesses(pt, is_honeyword=True)
                     acc.evals += 1
                     if n != 0 or lines:
@@ -285,7 +324,7 @@ def _walk_one(gm, entry, acc, second):
                     continue
                 for choice in itertools.product(*[range(s) for s in sizes]):
                     drv = Draws(list(choice))
-                    gm.random = drv
+                    set_source(gm, drv)
                     lines = []
                     g.print_guess = lines.append
                     acc.evals += 1
@@ -310,7 +349,7 @@ def _walk_one(gm, entry, acc, second):
                         acc.fail(dict(case0, pt=pt, choice=choice), 'choice() was offered %r, the groups are %r' % (drv.choice_args, [types[t][i][1] for t, i in pt]), 'choice-set')
         acc.sample({'ruleset': name, 'cells': len(measure), 'base': base[:3]}, cap=1)
     finally:
-        gm.random = real_random
+        restore_source(gm)
 
 
 SUB = r'''
@@ -350,6 +389,32 @@ def run_session(tier, acc):
                 r2 = S.run_guesser(td, ['-r', 'v', '-m', mode, '-n', str(N)])
                 if r2.stdout != r1.stdout:
                     acc.fail(case, 'two random_walk runs differ: %r vs %r' % (r1.stdout[:4], r2.stdout[:4]), 'session-reproducible')
+    # a ruleset whose groups hold several values of equal probability (words, digits and capitalisation masks): which member of a group a walk takes
+    # is a draw as well, and two runs of random_walk must agree on it
+    tied = dict(D.TERMINALS[0])
+    tied.update(A={1: [('a', .5), ('b', .5)], 2: [('ab', .25), ('cd', .25), ('ef', .25), ('gh', .25)]},
+                C={1: [('L', .5), ('U', .5)], 2: [('LL', .25), ('UL', .25), ('LU', .25), ('UU', .25)]},
+                D={1: [('1', .25), ('2', .25), ('3', .25), ('4', .25)], 2: [('12', .5), ('34', .5)]},
+                grammar=[('A2D1', .5), ('A1A2', .3), ('D2A1', .2)], prince=D.PRINCE)
+    R.write_ruleset(os.path.join(td, 'Rules', 't'), tied)
+    types_t, base_t = R.ref_loaded(tied, True, False)
+    lang_t = set()
+    for bp, reps_ in base_t:
+        for idx in itertools.product(*[range(len(types_t[r])) for r in reps_]):
+            lang_t.update(R.expand_pt(types_t, list(zip(reps_, idx))))
+    for N in (1, 7, 40):
+        runs = [S.run_guesser(td, ['-r', 't', '-m', 'random_walk', '-n', str(N)]) for _ in range(3)]
+        acc.evals += 3
+        acc.nontrivial += 3
+        case = {'layer': 'session', 'mode': 'random_walk', 'N': N, 'ruleset': 'tied values'}
+        if any(r.exc for r in runs):
+            acc.fail(case, 'random_walk -n %d raised %s' % (N, [r.exc for r in runs if r.exc][0].strip().splitlines()[-1]), 'session-raise')
+            continue
+        if any(len(r.stdout) != N or any(w not in lang_t for w in r.stdout) for r in runs):
+            acc.fail(case, 'random_walk -n %d on the tied-value ruleset produced %r' % (N, runs[0].stdout[:5]), 'session-language')
+        elif not (runs[0].stdout == runs[1].stdout == runs[2].stdout):
+            d = next(i for i in range(N) if len(set(r.stdout[i] for r in runs)) > 1)
+            acc.fail(case, 'three random_walk runs over a ruleset with tied values differ: word %d is %r' % (d + 1, [r.stdout[d] for r in runs]), 'session-reproducible')
     # runs of walks that land on the Markov structure (no honeyword for those: the session just walks again) between the walks that give a word:
     # however long such a run is, --limit N still means N words
     for mode in ('random_walk', 'honeywords'):
